@@ -117,7 +117,7 @@ def step' (d : DState) (line : String) : DState × String :=
     match natsOf rest with
     | some [vt, r, i, h, p, sender, votes, status, nil, sig, claim, stake, kind, T, cred] =>
       let m : Msg := { vt := vtOf vt, ctx := ⟨r, i⟩, h := h, p := p, sender := sender, votes := votes % U32,
-                       status := statusOf status, nilVote := nil != 0, sigOK := sig != 0, claimOK := claim != 0,
+                       status := statusOf status, nilVote := nil != 0, sigOK := sig == 1, claimOK := claim != 0,
                        stakeOK := stake != 0, kind := kindOf kind, T := T % U64, cred := credOf cred }
       let (v', outs, ret) := step d.v (.vote m)
       ({ d with v := v', hashes := addKey d.hashes h, addrs := addKey d.addrs sender, last := lastCommit outs d.last },
